@@ -15,6 +15,8 @@
 //   tuple.cat          tuple_cat: 1 argument (lvalue, const lvalue, rvalue, pair, nested tuple, const / reference
 //        elements), 2 and 3 arguments (all rvalues, all const lvalues, mixed const lvalue + rvalue, tuple + pair)
 //   tuple.factories    forward_as_tuple, tie, make_tuple (reference_wrapper unwrapping), make_pair
+//   *.init_list_*      make_from_tuple and the pair / tuple constructors with targets / elements that have an initializer_list
+//        constructor (std::vector<int>, a user type): T(a, b), never T{a, b}
 //   forward            etl::forward / etl::forward_like result types against [forward] (hand model: std::forward_like
 //        is C++23)
 //
@@ -41,6 +43,9 @@
 #include "tracked.hpp"
 
 #include "C20_common.hpp"
+
+#include <initializer_list>
+#include <vector>
 
 namespace {
 
@@ -419,6 +424,102 @@ void add_cat_and_factories()
     });
 }
 
+// ------------------------------------------------------------------ "construct from forwarded arguments": T(a, b) versus T{a, b}
+// A target with an initializer_list constructor next to an ordinary one: direct-initialisation with parentheses (what
+// [tuple.apply] make_from_tuple, [pairs.pair] and [tuple.cnstr] specify) never selects the list constructor.
+// (A target for which braces would be a NARROWING error is deliberately not instantiated: a tree that list-initialises
+//  would then fail to build this harness — exit 2, no verdict — instead of being reported through these families.)
+struct Samples {
+    int n, sum, ctor;
+    Samples(int count, int value) : n(count), sum(count * value), ctor(1) { }
+    Samples(std::initializer_list<int> l) : n(static_cast<int>(l.size())), sum(0), ctor(2)
+    {
+        for (int v : l) { sum += v; }
+    }
+    explicit Samples(int count) : n(count), sum(0), ctor(3) { }
+};
+auto show(Samples const& s) -> std::string
+{
+    Out o;
+    o << "{n=" << s.n << " sum=" << s.sum << " ctor=" << s.ctor << "}";
+    return o.s;
+}
+auto show(std::vector<int> const& v) -> std::string
+{
+    Out o;
+    o << "[" << v.size() << "]{";
+    for (int x : v) { o << " " << x; }
+    o << " }";
+    return o.s;
+}
+
+void add_init_list_targets()
+{
+    add_family("make_from_tuple.init_list_target", "tuple.factories", 6, 1, []<class L>(int x, int) {
+        int a = 3, b = 5;
+        Out o;
+        switch (x) {
+        case 0: o << show(L::template make_from_tuple<std::vector<int>>(typename L::template tuple<int, int>{3, 7})) << show(L::template make_from_tuple<Samples>(typename L::template tuple<int, int>{4, 10})); break;
+        case 1: {
+            typename L::template tuple<int, int> const t{6, 2};
+            o << show(L::template make_from_tuple<std::vector<int>>(t)) << show(L::template make_from_tuple<Samples>(t));
+            break;
+        }
+        case 2: o << show(L::template make_from_tuple<std::vector<int>>(typename L::template pair<int, int>{2, 9})) << show(L::template make_from_tuple<Samples>(typename L::template pair<int, int>{2, 9})); break;
+        case 3: o << show(L::template make_from_tuple<std::vector<int>>(typename L::template tuple<int>{5})) << show(L::template make_from_tuple<Samples>(typename L::template tuple<int>{5})); break;
+        case 4: {
+            auto t = L::tie(a, b);
+            o << show(L::template make_from_tuple<std::vector<int>>(t)) << show(L::template make_from_tuple<Samples>(t));
+            break;
+        }
+        default: {
+            typename L::template tuple<long, short> t{2, 8}; // converting elements (would narrow inside braces)
+            o << show(L::template make_from_tuple<std::vector<int>>(t)) << show(L::template make_from_tuple<Samples>(std::move(t)));
+            break;
+        }
+        }
+        return o.s;
+    });
+    // elements of pair / tuple are direct-non-list-initialised from the forwarded arguments
+    add_family("ctor.init_list_elements", "tuple.factories", 5, 1, []<class L>(int x, int) {
+        using P = typename L::template pair<std::vector<int>, Samples>;
+        using T = typename L::template tuple<std::vector<int>, Samples, int>;
+        Out o;
+        switch (x) {
+        case 0: {
+            P p(3, 4);
+            o << show(p.first) << show(p.second);
+            break;
+        }
+        case 1: {
+            typename L::template pair<int, int> src{3, 4};
+            P p(src); // converting copy
+            o << show(p.first) << show(p.second);
+            break;
+        }
+        case 2: {
+            typename L::template pair<short, long> src{2, 5};
+            P p(std::move(src)); // converting move
+            o << show(p.first) << show(p.second);
+            break;
+        }
+        case 3: {
+            T t(3, 4, 5);
+            o << show(L::template get<0>(t)) << show(L::template get<1>(t)) << L::template get<2>(t);
+            break;
+        }
+        default: {
+            int n = 2;
+            short m = 6;
+            T t(n, m, 7L); // lvalue and converting arguments
+            o << show(L::template get<0>(t)) << show(L::template get<1>(t)) << L::template get<2>(t);
+            break;
+        }
+        }
+        return o.s;
+    });
+}
+
 // ------------------------------------------------------------------ forward / forward_like (hand model of [forward])
 template <typename T, typename U>
 struct forward_like_model {
@@ -499,6 +600,7 @@ void build()
     add_types();
 #if C20_TYPES_PART != 2
     add_cat_and_factories();
+    add_init_list_targets();
     add_forward();
 #endif
 }
